@@ -53,31 +53,10 @@ type verifEndpointOpt struct {
 	PreservePath bool
 	BasePath     string
 	Models       []string
+	Boot         string // "" / "up", "sick" (health answers 503), "dead" (listener closed)
 }
 
-var (
-	verifPortMu   sync.Mutex
-	verifNextPort = 21000 + (os.Getpid()%100)*100
-)
-
-// verifFreePort hands out each port at most once per process (two stacks must never believe they
-// own the same port: the loser's readiness probe would happily talk to the winner).
-func verifFreePort() int {
-	verifPortMu.Lock()
-	defer verifPortMu.Unlock()
-	for {
-		verifNextPort++
-		if verifNextPort > 32000 {
-			verifNextPort = 21000
-		}
-		l, err := net.Listen("tcp", fmt.Sprintf("127.0.0.1:%d", verifNextPort))
-		if err != nil {
-			continue
-		}
-		l.Close()
-		return verifNextPort
-	}
-}
+func verifFreePort() int { return zzverif.FreePort() }
 
 // verifBoot boots the real ServiceManager (stats, security, discovery + health checker + model
 // discovery, proxy engine, HTTP server) against n scripted backends.
@@ -107,6 +86,12 @@ func verifBoot(engine, lb, profile string, eps []verifEndpointOpt, mod func(*con
 			b.SetModelsOpenAI(o.Models)
 		}
 		st.backends = append(st.backends, b)
+		switch o.Boot {
+		case "sick":
+			b.HealthStatus.Store(503)
+		case "dead":
+			b.SetDown(true)
+		}
 		typ := o.Type
 		if typ == "" {
 			typ = "openai-compatible"
